@@ -36,6 +36,7 @@ func RunATPServer(
 type atpServerSession struct {
 	ctx            context.Context
 	wg             *sync.WaitGroup
+	handlersWG     sync.WaitGroup // Running step and signal handlers. They report their errors through workDone.
 	stdinCloser    io.ReadCloser
 	cborStdin      *cbor.Decoder
 	cborStdout     *cbor.Encoder
@@ -251,8 +252,10 @@ func (s *atpServerSession) handleWorkStartMessage(runID string, workStartMsg Wor
 	}
 	s.runningSteps[runID] = workStartMsg.StepID
 	s.wg.Add(1) // Wait until the step is done
+	s.handlersWG.Add(1)
 	go func() {
 		s.runStep(runID, workStartMsg)
+		s.handlersWG.Done()
 		s.wg.Done()
 	}()
 }
@@ -278,7 +281,9 @@ func (s *atpServerSession) handleSignalMessage(runID string, signalMessage Signa
 		return
 	}
 	s.wg.Add(1) // Wait until the signal handler is done
+	s.handlersWG.Add(1)
 	go func() {
+		defer s.handlersWG.Done()
 		if err := s.pluginSchema.CallSignal(
 			s.ctx,
 			runID,
@@ -301,6 +306,9 @@ func (s *atpServerSession) handleSignalMessage(runID string, signalMessage Signa
 func (s *atpServerSession) run() {
 	defer func() {
 		s.runDoneChannel <- true
+		// The step and signal handlers that are still running send their errors to workDone,
+		// so it may only be closed once they are done.
+		s.handlersWG.Wait()
 		close(s.workDone)
 		s.wg.Done()
 	}()
